@@ -228,9 +228,29 @@ func genBigFloat(r *hx.RNG, tier string) (*big.Float, string) {
 	}
 	x := new(big.Float).SetPrec(prec)
 	switch r.Intn(12) {
-	case 0:
-		return x.SetInf(r.Bool()), "inf"
-	case 1:
+	case 0, 1:
+		special := r.Intn(2)
+		if r.Chance(40) {
+			// zeros and infinities are cheap at any precision: the whole uint32 range, and sums of small multiples of the
+			// continued-fraction denominators of log10(2) (where Prec() x log10(2) is closest to an integer, and a
+			// rounded product falls on the wrong side of it)
+			p := r.U64() % (1 << 32)
+			if r.Chance(70) {
+				cf := []uint64{93, 196, 485, 2136, 13301, 28738, 42039, 70777, 254370, 325147, 6107016, 6432163, 198096465, 1918400330}
+				p = 0
+				for i, n := 0, r.Range(1, 3); i < n; i++ {
+					p += cf[r.Intn(len(cf))] * uint64(r.Range(1, 25))
+				}
+				p %= 1 << 32
+			}
+			if p == 0 {
+				p = 1
+			}
+			x.SetPrec(uint(p))
+		}
+		if special == 0 {
+			return x.SetInf(r.Bool()), "inf"
+		}
 		if r.Chance(35) {
 			x = new(big.Float) // a zero value: precision 0 (its negation keeps precision 0)
 		}
@@ -299,6 +319,18 @@ func genBigFloat(r *hx.RNG, tier string) (*big.Float, string) {
 	return x, "finite"
 }
 
+// ceilLog10Pow2 returns ceil(p x log10(2)) exactly: the number of digits of 2^p, counted up to 140 000 bits, beyond that
+// floor(p x L / 10^60) + 1 with L = log10(2) x 10^60 truncated (the error, p x 10^-60, is far below the distance of
+// p x log10(2) from the nearest integer for any p < 2^32, which exceeds 10^-11).
+func ceilLog10Pow2(p uint64) int64 {
+	if p <= 140000 {
+		return oracle.Digits(new(big.Int).Lsh(big.NewInt(1), uint(p)))
+	}
+	l, _ := new(big.Int).SetString("301029995663981195213738894724493026768189881462108541310427", 10)
+	v := l.Mul(l, new(big.Int).SetUint64(p))
+	return v.Quo(v, oracle.Pow10(60)).Int64() + 1
+}
+
 func c15SetFloat(c *hx.Ctx, r *hx.RNG) {
 	x, cls := genBigFloat(r, c.Tier)
 	mode := r.Mode()
@@ -343,7 +375,7 @@ func c15SetFloat(c *hx.Ctx, r *hx.RNG) {
 	neg := x.Signbit()
 	pe := p
 	if p == 0 {
-		pe = oracle.Digits(new(big.Int).Lsh(big.NewInt(1), x.Prec())) // ceil(Prec() x log10(2)), exactly: the number of digits of 2^Prec()
+		pe = ceilLog10Pow2(uint64(x.Prec()))
 		if int64(got.Prec) != pe && !(got.Prec == 0 && cls != "finite") {
 			c.Violate("wrong-precision", fmt.Sprintf("%s: precision 0 became %d, documented %d", what, got.Prec, pe), "")
 		}
@@ -447,6 +479,15 @@ func genNearGrid(r *hx.RNG, bits32 bool) (oracle.Val, string) {
 		if threshold && r.Chance(70) {
 			k = int64(r.Range(6, 24)) // around the width of one unit of the format (2^-24, 2^-53) and of the band inside it
 		}
+		far := !threshold && r.Chance(12)
+		if far {
+			// a tail hundreds or thousands of digits down: the mantissa is far longer than any working precision a
+			// conversion may pick, and what decides the accuracy lies beyond it
+			k = int64(r.Range(60, 6000))
+			if r.Bool() {
+				k = int64(r.Range(780, 1200))
+			}
+		}
 		d := oracle.Digits(va.Coef)
 		ext := k + 2
 		co := new(big.Int).Mul(va.Coef, oracle.Pow10(ext))
@@ -462,6 +503,14 @@ func genNearGrid(r *hx.RNG, bits32 bool) (oracle.Val, string) {
 			va = oracle.Val{Form: oracle.Finite, Neg: va.Neg, Coef: co, Exp: va.Exp - ext}
 			if k >= 20 {
 				cls += "tiny"
+			}
+			if far {
+				cls += "-far-tail"
+				if r.Bool() { // ... held in a mantissa padded with zero digits below the tail, as a long receiver leaves it
+					z := int64(r.Range(1, 400))
+					va.Coef = new(big.Int).Mul(va.Coef, oracle.Pow10(z))
+					va.Exp -= z
+				}
 			}
 		}
 	}
